@@ -34,6 +34,8 @@ func extraMonitors(s *Sim) []Monitor {
 		&MonC15{},
 		newMonC16(s),
 		newMonSwaps(s),
+		newMonC05(s),
+		newMonC07(s),
 	}
 }
 
